@@ -56,6 +56,20 @@ def answers_agree(a, b) -> bool:
     return abs(x.v - y.v) <= tol
 
 
+def widen(a, variants):
+    """the answer `a` with the most pessimistic error bound among the guard-decision variants: a zero
+    test decided on a rounded value makes the as-computed run return an exact-looking 0 (the Python
+    code returns the int 0 there), while a variant that decides the other way carries the bound"""
+    if a[0] != "ok":
+        return a
+    m = a[1]
+    w = wire.MNum.__new__(wire.MNum)
+    w.kind, w.q, w.rep = "f", None, None
+    w.v, w.mx, w.mn = m.v, m.mx, m.mn
+    w.err = max([m.err] + [v[1].err for v in variants if v[0] == "ok" and v[1].kind == "f"])
+    return ("ok", w)
+
+
 def judge_numeric(cases: list[NumCase], rep: Report) -> None:
     """fills ``verdict`` of every case: match | skip:<why> | mismatch ; ``exact`` = ('exact-ok' |
     'exact-miss' | None) for the exactness sentence"""
@@ -111,6 +125,9 @@ def judge_numeric(cases: list[NumCase], rep: Report) -> None:
             c.info["model_variants"] = [b2[i] for i in ii]
             if not all(answers_agree(af, v) for v in variants):
                 c.verdict = "skip:rounding-ambiguous"
+            elif same_outcome(c.impl, widen(af, variants)):
+                c.verdict = "match"          # inside the bound of the variant that kept the bound
+                rep.count("verdicts", "match-after-widening")
             else:
                 c.verdict = "mismatch"
                 c.detail = f"implementation {c.impl!r} vs model {b[c.if0]}"
